@@ -2197,6 +2197,13 @@ class Interp:
                 return obj[key]
             except (KeyError, IndexError) as e:
                 self.raise_(type(e), str(e))
+        if isinstance(obj, dict) and isinstance(key, (SV, SStr, SInt, SBool, SFloat)) \
+                and all(isinstance(k, (str, int, bool)) or k is None for k in obj):
+            # a module-level table (real python dict) asked with a symbolic key
+            found, val = self.symbolic_key_lookup(SDict(dict(obj)), key)
+            if found:
+                return val
+            self.raise_(KeyError, "key")
         if isinstance(obj, SStr) and isinstance(key, (int, SInt)) and not isinstance(key, bool):
             n = z3.Length(obj.t)
             k = z3.IntVal(key) if isinstance(key, int) else key.t
